@@ -191,6 +191,8 @@ func judgeSeq(a urlAttr, parts []urlPart, values []urlValue, set bool) kit.Outco
 	}
 	prev, urlSoFar := "", ""
 	shows, excluded := 0, false
+	var lastOut []byte
+	lastSrc := ""
 	var segs []string // decoded segment of every part
 	for k := range parts {
 		content, out, src, err := renderPrefix(a, parts[:k+1], value, k+1 < len(parts))
@@ -202,6 +204,7 @@ func judgeSeq(a urlAttr, parts []urlPart, values []urlValue, set bool) kit.Outco
 		}
 		seg := html.UnescapeString(content[len(prev):])
 		prev = content
+		lastOut, lastSrc = out, src
 		p := parts[k]
 		state := position(urlSoFar)
 		after := state != "path" && k > 0 && parts[k-1].val >= 0
@@ -280,7 +283,7 @@ func judgeSeq(a urlAttr, parts []urlPart, values []urlValue, set bool) kit.Outco
 		}
 	}
 	// the attribute as an HTML parser sees it
-	_, out, src, _ := renderSeq(a, parts, value)
+	out, src := lastOut, lastSrc
 	toks := htmltok.Tokenize(string(out))
 	if len(toks) != a.tokens || (toks[0].Type != xhtml.StartTagToken && toks[0].Type != xhtml.SelfClosingTagToken) || len(toks[0].Attrs) != 1 ||
 		toks[0].Attrs[0].Key != a.key || toks[0].Attrs[0].Val != html.UnescapeString(prev) {
@@ -483,6 +486,13 @@ func urlSeqSpaces(tier string) []kit.Space {
 	}{{"alone", "", ""}, {"first", "", ", /b.png?z=1 1x"}, {"second", "/b.png?z=1 1x, ", ""}, {"between", "/a.png 1x, ", ", /c.png?y=2 3x"}}
 	for n := 1; n <= 3; n++ {
 		n := n
+		descs, arrangements := descs, arrangements
+		what := "3 descriptors x {alone, first, second, between}"
+		if n == 3 && tier != "thorough" {
+			descs = []string{descs[0], descs[1]}
+			arrangements = append(arrangements[:0:0], arrangements[0], arrangements[2])
+			what = "2 descriptors x {alone, second}"
+		}
 		per := pow(len(sv)+len(srcsetLiterals), n)
 		build := func(i uint64) []urlPart {
 			d := kit.Mixed(i, per, uint64(len(descs)), uint64(len(arrangements)))
@@ -497,7 +507,7 @@ func urlSeqSpaces(tier string) []kit.Space {
 			return parts
 		}
 		sps = append(sps, kit.Space{
-			Name:     fmt.Sprintf("srcset/candidate of %d parts over 10 values and 4 literals x 3 descriptors x {alone, first, second, between}", n),
+			Name:     fmt.Sprintf("srcset/candidate of %d parts over 10 values and 4 literals x %s", n, what),
 			Size:     per * uint64(len(descs)*len(arrangements)),
 			Eval:     func(i uint64) kit.Outcome { return judgeSeq(srcsetAttr, build(i), srcsetValues, true) },
 			Describe: func(i uint64) any { return describeSeq(srcsetAttr, build(i), srcsetValues) },
